@@ -329,12 +329,22 @@ struct Exec {
   }
   void section(size_t sidx) {
     Section* s = (sidx >= 1 && sidx <= secs.size()) ? secs[sidx - 1] : foreign.text_section();
+    size_t cur_before = cur_index();
     Error e = a->section(s);
     w.beginObj().kv("e", "Section").kv("sec", (long long)(sidx >= 1 && sidx <= secs.size() ? sidx : 0)).kv("r", err_name(e));
     post();
     w.endObj().emit(out);
-    if (e == Error::kOk) { Replay r; r.k = OSection; r.sec = uint32_t(sidx); calls.push_back(r); }
+    if (e == Error::kOk) {
+      // A Builder groups nodes by section (in order of first use) and serializes section by section: a program that
+      // returns to a section it has left is emitted in a different call order, which legitimately changes what
+      // embed_label_delta knows about its labels.  Only programs whose call order is the Builder's order are replayed.
+      if (visited.size() < secs.size() + 1) visited.resize(secs.size() + 1, false);
+      if (sidx != cur_before && visited[sidx]) builder_ok = false;
+      visited[sidx] = true;
+      Replay r; r.k = OSection; r.sec = uint32_t(sidx); calls.push_back(r);
+    }
   }
+  std::vector<bool> visited{false, true};
   void reserve(size_t sidx, size_t n) {
     if (sidx < 1 || sidx > secs.size()) return;
     Error e = code.reserve_buffer(&secs[sidx - 1]->buffer(), n);
